@@ -1,6 +1,6 @@
 """C01 — encode/decode round trip reproduces the geometry exactly (modulo quantization)."""
 from vlib.engine import Case
-from . import e2e, geomgen as G, seqenc_cases
+from . import e2e, ebcases, geomgen as G, seqenc_cases
 
 ID = "C01"
 LEVEL = "proof"
@@ -36,6 +36,9 @@ def generate(rng, tier):
         cases.append(c)
     # encoder model of the sequential methods vs. the C++ encoders, byte for byte (DracoModel/SeqEncoder.lean)
     cases += seqenc_cases.cases(rng, 600 if tier == "thorough" else 150, 2000 if tier == "thorough" else 300)
+    # the Edgebreaker decoder model driven through every branch on purpose (standard / valence traversal, split
+    # events, holes, seams, all mesh prediction schemes); reached branches show as eb:* in input_distribution
+    cases += ebcases.cases(rng, tier)
     return cases
 
 
